@@ -17,19 +17,19 @@ CHECKS.update({
  'C04': dict(level='fault_enumeration', technique='exhaustive crash-point x torn-image enumeration over a recorded storage-operation log of the real write/flush/compaction/manifest path, recovery by the real Open, subset-explanation oracle',
    text='For every history (all sequences to the depth + 6 long ones, several option sets) every storage-log position and every admissible durable image (tails lost/kept/cut at and inside write boundaries, +zeros/garbage) is recovered with leveldb.Open; the result must open, contain every sync-acknowledged batch and committed transaction, be explained by an in-order subset of issued batches, satisfy the LSM invariants and remain fully usable; thorough adds nested crashes inside recovery.',
    note='Crash model: metadata ops durable+ordered on return, content durable to last Sync; default non-strict options; histories on the default schedule.', design='4/C04'),
- 'C05': dict(level='exploration', technique='stateless model checking: DFS over scheduler choice lists with iterative deviation bounding on the instrumented real code, porcupine linearizability oracle per execution',
+ 'C05': dict(level='exploration', technique='stateless model checking: DFS over scheduler choice lists with iterative deviation bounding on the instrumented real code, happens-before state caching (cross-checked against the plain search on every run), porcupine linearizability oracle per execution',
    text='Closed drivers (2-3 clients, colliding keys, real background goroutines) are executed under every schedule within the deviation bound (every departure from the deterministic default scheduler costs 1; quick bound 2, 3 on the smallest driver); each execution yields a timestamped call/return history that must be linearizable w.r.t. a map-with-batches model (snapshot and iterator creation as single operations).',
    note='Bounded: schedules needing more deviations than the completed bound are not covered. SC memory assumed; timers fire at quiescence; scheduling points before every lock/atomic/channel/select/waitgroup op.', design='4/C05'),
  'C08': dict(level='fault_enumeration', technique='exhaustive single-fault (thorough: double-fault) position enumeration over the real DB on a fault-injecting storage under the deterministic scheduler, subset-explanation oracle before and after reopen',
-   text='Per history one run per fault plan: k-th operation of each (kind,file type) x {fail once, fail 3x, half-written, performed-but-reported-failed, flipped read}; contents while running and after clean close + fault-free reopen must be explained by all acknowledged writes plus a subset of failed ones; reopen must succeed unless the fault itself tore durable bytes.',
-   note='Faults begin after the initial Open; virtual-time settling; known finding D11 (manifest edit durable but reported failed) is matched by signature.', design='4/C08'),
+   text='Per history one run per fault plan: k-th operation of each (kind,file type) x {fail once, fail 3x, half-written, performed-but-reported-failed, flipped read at 4 byte positions}; histories may close and reopen the DB under the plan (one or two journals to replay; fault pairs that leave two non-empty journals); contents while running and after clean close + fault-free reopen must be explained by all acknowledged writes plus a subset of failed ones; Open must succeed again once the injected failures stop, unless the fault itself tore durable bytes.',
+   note='Faults begin after the initial Open; virtual-time settling; known findings D11 (manifest edit durable but reported failed) and F-C08-MF (a transient manifest misread made permanent by the tolerant default) are matched by signature.', design='4/C08'),
 
  'C09': dict(level='exploration', technique='fault-plan enumeration plus stateless DFS over schedules (deviation bounding) on the instrumented real code with exact deadlock / virtual-time hang verdicts from the cooperative scheduler',
    text='(a) every single-fault plan of the C08 engine is followed by a probe suite (Put, Get, iterator, transactions, CompactRange, Close); every call must return. (b) clients racing Close, SetReadOnly, transactions and CompactRange are explored under all schedules within the deviation bound. The scheduler owns every blocking primitive, so "never returns" is decided exactly: no goroutine enabled and no timer pending (deadlock) or the virtual clock passing one hour with a client call outstanding (hang).',
    note='Virtual time (timers fire at quiescence); bounded schedules; faults start after the initial Open.', design='4/C09'),
 
- 'C10': dict(level='exploration', technique='stateless DFS over schedules (deviation bounding) of N concurrent writers plus a lock competitor on the instrumented real code; deadlock verdict, linearizability and journal read-back oracles',
-   text='2-4 writers (merge on/off, one above the merge capacity so the hand-off path runs) plus Close / transaction / CompactRange / SetReadOnly are explored under every schedule within the bound. Each execution must end with every writer answered (exact deadlock/hang verdict), a linearizable history, and a journal whose records have contiguous disjoint sequence ranges containing every acknowledged write exactly once; evidence lists the merge-group shapes reached.',
+ 'C10': dict(level='exploration', technique='stateless DFS over schedules (deviation bounding, weighted budget on the queue drivers, happens-before state caching) of N concurrent writers plus a lock competitor and storage faults on the instrumented real code; deadlock verdict, linearizability, journal read-back and group-result oracles',
+   text='2-5 writers (merge on/off, one above the merge capacity so the hand-off path runs, writers queued behind a transaction so that the base schedule already has a full queue, a journal write/sync/creation fault in the middle of the protocol) plus Close / transaction / CompactRange / SetReadOnly are explored under every schedule within the bound (queue drivers also with weighted budget 4: preemption 2, wake-up choice 1). Callers reuse their buffers as soon as a call returns. Each execution must end with every writer answered (exact deadlock/hang verdict), a linearizable history, and a journal whose records have contiguous disjoint sequence ranges containing every acknowledged write exactly once, and writes sharing one journal record (one group) must have received the same result; evidence lists the merge-group shapes reached.',
    note='Bounded schedules; group membership is read from journal records (no source hook).', design='4/C10'),
 
  'C06': dict(level='model_checking', technique='explicit-state BFS over operation sequences with a scheduler step-hook monitor that validates every installed version by reading all live tables back from storage',
@@ -42,8 +42,8 @@ CHECKS.update({
    text='Every argument buffer is overwritten right after its call returns and every Get result after it was compared; full read-back after every step of every path against a model holding private copies, for 9 option sets covering buffer pool on/off, block cache on/off/tiny, snappy, data in tables vs buffers, DB/Snapshot/Transaction/iterator handles.',
    note='Aliasing is detected through its observable effect (a later wrong answer or a modified argument); state merge ignores cache contents but checks run along every explored path.', design='4/C20'),
 
- 'C12': dict(level='fault_enumeration', technique='exhaustive finite-domain enumeration on the real journal Writer/Reader: all record-length tuples x flush patterns, every truncation offset and every single-byte alteration',
-   text='Round trip of every tuple (<=3, thorough <=4) of 15 block-boundary-hitting record lengths under every flush pattern, strict and tolerant; for selected streams every truncation offset and every one-byte alteration (3 patterns) at every offset (<=2 blocks) or around every chunk/block boundary (longer); the reader must never panic, invent or reorder records, tolerant mode may lose only records touching the damaged block, strict mode must stop with an error (except at an exact record boundary).',
+ 'C12': dict(level='fault_enumeration', technique='exhaustive finite-domain enumeration on the real journal Writer/Reader: all record-length tuples x flush patterns, every truncation offset, every single-byte alteration and every run of zero bytes',
+   text='Round trip of every tuple (<=3, thorough <=4) of 15 block-boundary-hitting record lengths under every flush pattern, strict and tolerant; for selected streams every truncation offset, every one-byte alteration (3 patterns) and every run of zero bytes (2/7/8/100/to the block end) at every offset (<=2 blocks) or around every chunk/block boundary (longer); the reader must never panic, invent or reorder records, tolerant mode may lose only records touching the damaged block, strict mode must stop with an error (except at an exact record boundary).',
    note='Known finding: strict mode returns clean EOF for a cut inside a first-chunk header.', design='4/C12'),
 
  'C13': dict(level='model_checking', technique='exhaustive finite-domain enumeration on the real table Writer/Reader: every subset of a key universe x option grid, all movement sequences to a depth on every range against a cursor model, every single-byte alteration of the small tables',
@@ -52,8 +52,8 @@ CHECKS.update({
  'C15': dict(level='model_checking', technique='exhaustive evaluation of the order and shortening laws over a finite universe of internal keys for five comparers, plus index routing through one-entry-per-block tables',
    text='All 320 internal keys (user keys over {0x00,a,0xff} up to length 3, seq {0,1,2,2^56-1}, both kinds) x 5 comparers: antisymmetry, identity, user-key-major/newest-first, probe placement on all pairs; transitivity on all triples; a<=Separator(a,b)<b and Successor(b)>=b on all ordered pairs for internal and user comparers; every stored key found in every table of <=4 one-entry blocks over a 24-key sub-universe.',
    note='Internal comparer and key constructor reached through an overlay-added export; finite universe.', design='4/C15'),
- 'C16': dict(level='model_checking', technique='exhaustive enumeration: bloom filters for bits 1..64 over all subsets of a key universe, filter blocks over all table subsets x filter bases, and BFS over DB programs under 7 filter settings against the sorted-map model',
-   text='No added key is ever reported absent (all 4096 subsets of a 12-key universe x 64 bits-per-key; generated large sets in thorough); tables with many/empty filter partitions find every stored key; every DB operation sequence to the depth returns the model answers with no filter, bloom 1/10/64, and with tables written under bloom10 and reopened with no filter / another policy with and without AltFilters.',
+ 'C16': dict(level='model_checking', technique='exhaustive enumeration: bloom filters for bits 1..64 over all subsets of a key universe, filter blocks over all table subsets x filter bases, and BFS over DB programs under 12 filter settings (bloom and an exact-set policy with its own name, with/without AltFilters) against the sorted-map model',
+   text='No added key is ever reported absent (all 4096 subsets of a 12-key universe x 64 bits-per-key; generated large sets in thorough); tables with many/empty filter partitions find every stored key; every DB operation sequence to the depth returns the model answers with no filter, bloom 1/10/64, an exact-set policy (no false positives, own name), and with tables written under one policy and reopened with no filter / no filter + AltFilters / another policy with and without AltFilters.',
    note='Key sets: all subsets of a finite universe plus a finite generated family.', design='4/C16'),
 
  'C02': dict(level='model_checking', technique='explicit-state BFS over DB operation sequences; in every reached state exhaustive enumeration of iterator movement sequences on every range and view against a cursor model; same enumeration on merged/indexed component iterators',
@@ -64,8 +64,8 @@ CHECKS.update({
    text='Every sequence to the depth over Put (3 keys x 3 value lengths) / Delete / Reset; after each Len, Size, Get/Contains/Find on probes and, at the deepest levels, every movement sequence on 27 ranges. Concurrent: scheduling points before every statement of package memdb; a writer (overwrite changing the value length, delete) against 1-2 readers under every schedule within the deviation bound; readers see strictly monotone keys and only pairs stored at some time.',
    note='Concurrent part deviation-bounded (3 quick / 5 thorough on single-reader drivers).', design='4/C14'),
 
- 'C17': dict(level='exploration', technique='stateless DFS over schedules (deviation bounding; atomics are scheduling points) on the real cache.Cache + LRU with instrumented values',
-   text='2-3 goroutines issue Get/Release, Get/hold, Delete with callback, Evict, EvictNS, EvictAll, SetCapacity, Close (forced or not) on colliding keys, also across a map grow; under every schedule within the bound: constructors never run while a value of the key is live, handles never carry a finalised value, values are finalised exactly once and only with no outstanding handle (unless force-closed), delete callbacks run once and never with a handle out, retained charge fits the capacity when no handle is out. Deadlocks inside the cache are counted but belong to C09.',
+ 'C17': dict(level='exploration', technique='exhaustive enumeration of all operation sequences to a depth on the real cache.Cache + LRU from one goroutine, plus stateless DFS over schedules (deviation bounding; atomics are scheduling points), both with instrumented values',
+   text='Sequential: every sequence of 5 (thorough 6) operations over a 19-operation alphabet on capacities 1 and 2; after every step the charge retained without any client handle - recomputed from the instrumented values, not read from the cache - fits the capacity, Evict*/Delete of an unpinned node finalise it at once, callbacks and finalisers run exactly once. Concurrent: 2-3 goroutines issue Get/Release, Get/hold, Delete with callback, Evict, EvictNS, EvictAll, SetCapacity, Close (forced or not) on colliding keys, also across a map grow; under every schedule within the bound: constructors never run while a value of the key is live, handles never carry a finalised value, values are finalised exactly once and only with no outstanding handle (unless force-closed), delete callbacks run once and never with a handle out, retained charge fits the capacity when no handle is out. Deadlocks inside the cache are counted but belong to C09.',
    note='Deviation bound 3-5 quick / 5-8 thorough.', design='4/C17'),
  'C19': dict(level='fault_enumeration', technique='explicit-state BFS over DB operation sequences; per settled closed state enumeration of manifest-loss/truncation/garbage variants and single-byte table damage, Recover by the real code, model comparison + LSM invariants',
    text='Every state to the depth: manifest and CURRENT removed, CURRENT removed, manifest cut at every record boundary -1/0/+1 and inside headers, manifest garbage -> Recover must give exactly the model contents, a well-formed LSM tree, a usable DB that reopens with Open. With the manifest gone, one byte per 16-byte stretch of each table data area (and all first blocks together) altered -> Recover succeeds, keys outside the damaged table read exactly as the model, others only values once written.',
